@@ -762,9 +762,9 @@ XProg(v) ==
             <<XInj("Inject", <<>>, "T1", <<ItL(1), ItL(2), ItL(3)>>, 1), XInj("InjectC", <<>>, "T9", <<ItL(2), ItL(1), ItL(4)>>, 1)>>)
          @@ [naming |-> [x \in {"pkg:b", "pkg:c", "alias:b", "alias:c", "NewB", "NewC"} |->
                           CASE x \in {"pkg:b", "pkg:c"} -> "store" [] x = "alias:b" -> "bstore" [] x = "alias:c" -> "cstore" [] OTHER -> "New"]]
-    [] v = "blank-param-conflicts-with-set" ->  \* a parameter named _ is a source like any other
-         mk(<<XF("P2", <<>>, "T2"), XF("P1", <<"T2">>, "T1")>>, <<SetD("SetA", "a", <<ItL(1)>>)>>,
-            <<XInj("Inject", <<Par("_", "T2")>>, "T1", <<ItS(1), ItL(2)>>, 1), XInj("InjectUnnamed", <<Par("", "T2")>>, "T1", <<ItS(1), ItL(2)>>, 1)>>)
+    [] v \in {"blank-param-conflicts-with-set", "unnamed-param-conflicts-with-set"} ->   \* a parameter named _ (or not named) is a source like any other
+         mk(<<XF("P2", <<>>, "T2"), XF("P3", <<>>, "T3"), XF("P1", <<"T2", "T3">>, "T1")>>, <<SetD("SetA", "a", <<ItL(1), ItL(2)>>)>>,
+            <<XInj("Inject", <<Par(IF v = "blank-param-conflicts-with-set" THEN "_" ELSE "", "T2")>>, "T1", <<ItS(1), ItL(3)>>, 1)>>)
     [] v = "embed-in-injector-file" ->          \* the injector file has a blank import its copied declarations need; nothing else is imported
          mk(<<XF("P3", <<>>, "T3")>>, <<>>, <<XInj("Inject", <<>>, "T3", <<ItL(1)>>, 1)>>) @@ [opts |-> [embeddecl |-> TRUE]]
     [] v = "same-name-packages-poorer-set" ->   \* two packages with one name, each with a set Set; the second one lacks what the first provides
@@ -823,7 +823,7 @@ XVariants == {"star-foreign-tag-missing", "star-foreign-tag-ok", "two-files-firs
               "embedded-fields-struct", "embedded-fields-fieldsof", "same-text-values-two-packages",
               "sets-in-injector-file", "same-provider-twice-direct", "same-provider-twice-in-set",
               "cycle-through-pointer-types", "cycle-behind-bound-interface", "bind-to-field-type", "variadic-dup-param", "arg-returned-directly-full-sig",
-              "struct-both-forms-plus-superfluous", "same-name-packages-one-unused", "blank-param-conflicts-with-set", "embed-in-injector-file", "same-name-packages-poorer-set", "multi-name-var-sets-bind", "multi-name-var-sets-badsig",
+              "struct-both-forms-plus-superfluous", "same-name-packages-one-unused", "blank-param-conflicts-with-set", "unnamed-param-conflicts-with-set", "embed-in-injector-file", "same-name-packages-poorer-set", "multi-name-var-sets-bind", "multi-name-var-sets-badsig",
               "value-in-shared-set", "two-files-first-unused", "structlit-dup-fields", "foreign-struct-sole-reference",
               "bind-three-sets-deep", "set-through-alias-only-path"}
 FamilyX(p, vs) == \E v \in vs : p = XProg(v)
